@@ -90,7 +90,7 @@ CONCRETE = sorted(n for n in NODE_TABLE if n not in ABSTRACT)
 CONTAINER_TAGS = ("Tuple", "List", "NpArray", "ParsedList", "ParsedTuple")
 LEAF_TAGS = ("Var", "Const", "Frac")
 ALL_TAGS = set(NODE_TABLE) | set(CONTAINER_TAGS) | set(LEAF_TAGS) | {
-    "CallWithKwargsDict"}
+    "CallWithKwargsDict", "MultiVector"}
 
 # }}}
 
@@ -170,6 +170,17 @@ class Builder:
             return tuple(self(c) for c in s[1])
         if tag == "List":
             return [self(c) for c in s[1]]
+        if tag == "MultiVector":
+            # ["MultiVector", [[blade bits, coefficient spec], ...], dimensions]
+            from pymbolic.geometric_algebra import MultiVector, get_euclidean_space
+            if len(s) != 3 or not isinstance(s[2], int) or not 0 <= s[2] <= 4 \
+                    or not isinstance(s[1], list) or not all(
+                        isinstance(t, list) and len(t) == 2 and isinstance(t[0], int)
+                        and not isinstance(t[0], bool) and 0 <= t[0] < 2 ** s[2]
+                        for t in s[1]) or len({t[0] for t in s[1]}) != len(s[1]):
+                raise HarnessError(f"bad multivector spec {s!r}")
+            return MultiVector({bits: self(c) for bits, c in s[1]},
+                               get_euclidean_space(s[2]))
         if tag in ("ParsedList", "ParsedTuple"):
             # the containers the parser leaves in expressions for [a, b] and (a, b)
             from pymbolic.parser import FinalizedList, FinalizedTuple
